@@ -220,8 +220,14 @@ func init() {
 		Assumptions: []string{"runtime.CallersFrames over a 16-slot Callers buffer gives the true logical stack at the call site", "privacy path flags are off so that the reported file can be compared (C18 covers them)"},
 		Floors:      map[string]int64{"attributions_confirmed": 1000},
 		Exhaustive:  func(string) bool { return true },
+		NoInline: true,
 		Jobs: func(tier string, seed int64) []Job {
-			return chunk("sites", "prod", 7000, 500, Job{Timeout: 20 * time.Minute})
+			js := chunk("sites", "prod", 4000, 300, Job{Timeout: 20 * time.Minute})
+			if tier == "thorough" {
+				js = append(js, chunk("sites", "prod", 4000, 300, Job{NoInl: true, Args: []string{"-x", "build=noinline"}, Timeout: 20 * time.Minute})...)
+				js = append(js, chunk("sites", "test", 4000, 300, Job{Timeout: 20 * time.Minute})...)
+			}
+			return js
 		},
 	})
 	register(&Plan{
@@ -238,6 +244,52 @@ func init() {
 			js = append(js, chunk("bridge", "prod", pick(tier, 2048, 65536), pick(tier, 512, 8192), Job{Timeout: 30 * time.Minute})...)
 			js = append(js, chunk("levelsweep", "prod", 3, 1, Job{Timeout: 10 * time.Minute})...)
 			return js
+		},
+	})
+	register(&Plan{
+		Prop:  "C16",
+		Level: "exploration",
+		Rule: "cases = (instant: year 1-9999, every sub-second pattern, 6 fixed offsets incl. odd minutes + 5 named zones from the embedded tzdata; all 8 date/time/microseconds flag combinations x LlocalTime on/off; UTC mode unset / false / true; no logger layout or one of 14 custom layouts; json/logfmt/color) logged through WriteThru with that instant; " +
+			"the timestamp text is extracted from the record and must equal instant.In(zone).Format(layout) with zone = UTC iff UTC mode or (unset and LlocalTime clear), layout = the logger's, else the documented table for the flags (any exported layout for the two combinations the table does not list); layouts with full date, time and numeric zone must parse back to the instant truncated to the layout's precision. non-trivial = matched timestamp; distinct = by (text, layout, format)",
+		Assumptions: []string{"Go's time.Format/time.Parse (go1.23.5) as the reference for layouts"},
+		Floors:      map[string]int64{"timestamps_extracted": 1000, "parsed_back": 100},
+		Jobs: func(tier string, seed int64) []Job {
+			return chunk("ts", "prod", pick(tier, 8000, 500000), pick(tier, 500, 16000), Job{Timeout: 30 * time.Minute})
+		},
+	})
+	register(&Plan{
+		Prop:  "C17",
+		Level: "exploration",
+		Rule: "one case = one history in its own child process (the registry cannot be reset; index 0 is the pristine registry): 1-30 RegisterLevel calls with values -50..70 incl. collisions, titles in lower/Title/UPPER case incl. built-in names, aliases and already registered titles, every subset of the options (short tags with a missing width, treat-as, error device, colour fg / fg+bg). " +
+			"A model of the registry says which calls must be refused (used value, exactly used title; a title differing only in case may go either way). After a refusal EVERY observable (AllLevels, names, 5 tag widths, text marshalling, gating matrix against 12 logger levels, routing and bytes of a colored probe, parse results over a name universe) must be unchanged. " +
+			"After every call, for every built-in / registered level: ParseLevel(String(l)) == l, text and JSON round trips (methods and through encoding/json), ShortTag(1..5) = custom tag or exactly n characters, gating == treated-as rule, routing == error device iff requested, title resolves, built-in names still resolve. non-trivial = completed history; distinct = by history",
+		Assumptions: []string{"ASCII titles", "a title that differs only in case from a used name may be refused or accepted"},
+		Floors:      map[string]int64{"register_calls": 500, "registrations_accepted": 100, "refusals_checked_for_side_effects": 50, "roundtrips": 5000, "custom_levels_probed": 500},
+		Jobs: func(tier string, seed int64) []Job {
+			return chunk("hist", "prod", pick(tier, 150, 10000), 1, Job{Timeout: 10 * time.Minute})
+		},
+	})
+	register(&Plan{
+		Prop:  "C18",
+		Level: "exploration",
+		Rule: "one case = one mapping table built by a random add/remove history (11 overlapping string prefixes incl. nested ones, prefixes under $HOME, with spaces and non-ASCII; 3 regexp mappings; the initial home and cwd entries stay) x the two privacy flags, then 12 queries (under a prefix, the prefix itself, near misses like /srvx, regexp territory, outside everything, relative/empty/very long/.. paths, below cwd), " +
+			"each query asked 32 times through Safety and SafetyFiles because the mapping table is a Go map with randomised iteration order - the evidence counts queries whose output depends on that order. Oracle: no panic; with the privacy flag a path component-wise under a protected prefix is never reported equal to or starting with that prefix and starts with an applicable short form (or is a relative path to the same file); " +
+			"regexp-protected prefixes likewise when the regexp flag is on; a path that no mapping string-prefixes and no regexp matches is returned unchanged or as a strictly shorter relative path resolving to the same file. The caller field of emitted records is checked with the harness's own source directory registered. non-trivial = judged query; distinct = by (path, table, flags)",
+		Assumptions: []string{"replacements are non-empty and not absolute paths", "ResetKnownPathMapping and removal of the home / cwd entries are not generated", "paths that merely string-prefix-match a key without lying under it (/srvx for /srv) are unconstrained"},
+		Floors:      map[string]int64{"queries": 10000, "caller_fields_checked": 20},
+		Jobs: func(tier string, seed int64) []Job {
+			return chunk("paths", "prod", pick(tier, 2000, 60000), pick(tier, 125, 3750), Job{Timeout: 30 * time.Minute})
+		},
+	})
+	register(&Plan{
+		Prop:  "C19",
+		Level: "exploration",
+		Rule: "one case = one operation sequence (1-300 of the 20 listed operations) executed in lock-step on a PrintCtx and on a bytes.Buffer (go1.23.5) from the same start state (zero value, NewPrintCtx with a pre-filled slice of chosen len/cap, NewPrintCtxString, NewPrintCtx(nil)); argument sizes around 0, 1, 63-65, 511-513, 1023-1025, current length +-1, free capacity +-1, negative, 70000 and astronomical (>= 2^62, must panic without allocating); " +
+			"ReadFrom readers scripted to return data, zero, a negative count, an error or data+EOF; WriteTo writers that short-write, fail, over-report. After EVERY step: returned values / slice contents, error (text compared after replacing the type name), panic (both or neither, same text), Len() and String() must be identical. non-trivial = completed sequence; distinct = by start state and sequence",
+		Assumptions: []string{"bytes.Buffer of the toolchain that builds the workload (go1.23.5) is the reference", "error and panic texts are compared after replacing 'bytes.Buffer' / 'logg/slog.PrintCtx' by a common token"},
+		Floors:      map[string]int64{"ops_executed": 50000, "ops_that_panicked_in_both": 50},
+		Jobs: func(tier string, seed int64) []Job {
+			return chunk("diff", "prod", pick(tier, 6000, 1000000), pick(tier, 400, 32000), Job{Timeout: 40 * time.Minute})
 		},
 	})
 }
